@@ -172,6 +172,17 @@ func Execute(t *testing.T, property string, sc *Scenario, seed uint64, tier stri
 	res.Policy = cfg.Policy
 	var run *simrt.Run
 	ctx := &Ctx{Seed: seed, Tier: tier, Counters: map[string]int64{}}
+	// real-time cap per run, kept by a goroutine outside the bubble
+	simrt.WallExceeded.Store(false)
+	wdStop := make(chan struct{})
+	go func() {
+		select {
+		case <-time.After(90 * time.Second):
+			simrt.WallExceeded.Store(true)
+		case <-wdStop:
+		}
+	}()
+	defer close(wdStop)
 	func() {
 		defer func() {
 			if p := recover(); p != nil {
